@@ -42,6 +42,10 @@ pub struct Case {
     /// RLIMIT_NOFILE of the run (part 'thousand-blk-files')
     #[serde(default)]
     pub nofile: Option<u64>,
+    /// a pruned data directory: the blk files that hold only blocks below --start have been deleted (their index
+    /// records remain); blocks outside the range must not matter in any way
+    #[serde(default)]
+    pub pruned: bool,
 }
 
 fn chain_cfg(tier: Tier) -> gen::ChainCfg {
@@ -82,6 +86,22 @@ pub fn check(c: &Case) -> Verdict {
         None => canonical_plan(built.coin, &built.blocks),
     };
     let w = infra!(World::create("c02", &mut plan));
+    if let (true, Some(l)) = (c.pruned, &c.layout) {
+        let nb = built.blocks.len();
+        let mut top: std::collections::BTreeMap<usize, u64> = std::collections::BTreeMap::new();
+        for i in 0..nb {
+            let e = top.entry(l.file_of(i)).or_insert(0);
+            *e = (*e).max(built.blocks[i].0);
+        }
+        let numbers = l.numbers();
+        for (slot, maxh) in top {
+            if maxh < s {
+                if let Some(pf) = plan.files.iter().find(|pf| pf.number == numbers[slot]) {
+                    let _ = std::fs::remove_file(w.data().join(&pf.name));
+                }
+            }
+        }
+    }
     let mut o = RunOpts::new(built.coin, c.cb);
     o.start = start;
     o.end = c.end;
@@ -165,9 +185,9 @@ pub fn exhaustive_cases(seed: u64, tmax: u64, tier: Tier) -> Vec<Case> {
             }
             for (s, e) in opts {
                 for cb in ALL_CALLBACKS {
-                    v.push(Case { chain: chain.clone(), start: s, end: e, cb, layout: None, verify: false, pause: false, nofile: None });
+                    v.push(Case { chain: chain.clone(), start: s, end: e, cb, layout: None, verify: false, pause: false, nofile: None, pruned: false });
                     if cb == Callback::CsvDump && coin == Coin::Bitcoin {
-                        v.push(Case { chain: vchain.clone(), start: s, end: e, cb, layout: None, verify: true, pause: false, nofile: None });
+                        v.push(Case { chain: vchain.clone(), start: s, end: e, cb, layout: None, verify: true, pause: false, nofile: None, pruned: false });
                     }
                 }
             }
@@ -199,7 +219,8 @@ pub fn random_strategy(tier: Tier) -> BS<Case> {
                 2 => (None, Some(e.max(base + 1))),
                 _ => (Some(s), Some(e)),
             };
-            Case { chain, start, end, cb, layout, verify, pause: false, nofile: None }
+            let pruned = start.is_some() && (a ^ b) & 3 == 0;
+            Case { chain, start, end, cb, layout, verify, pause: false, nofile: None, pruned }
         })
         .boxed()
 }
@@ -215,11 +236,11 @@ fn run(eng: &Engine, a: &Args) {
         // thousands of one-transaction blocks: the block loop is still running when the stop arrives
         let scripts: Vec<Vec<u8>> = (0..6000usize).map(|i| if i % 7 == 3 { vec![0x6a, 0x03, b'a' + (i % 26) as u8, b'0' + (i % 10) as u8, b'!'] } else { let mut s = vec![0x76, 0xa9, 0x14]; s.extend([(i & 0xff) as u8, (i >> 8) as u8].iter().cycle().take(20)); s.extend([0x88, 0xac]); s }).collect();
         let chain = vpmodel::spec::chain_from_scripts([Coin::Bitcoin, Coin::Litecoin][k % 2], &scripts, &[1000, 2500], 1, 1, 0, 1_400_000_000);
-        slow.push(Case { chain: chain.clone(), start: None, end: None, cb: *cb, layout: None, verify: false, pause: true, nofile: None });
+        slow.push(Case { chain: chain.clone(), start: None, end: None, cb: *cb, layout: None, verify: false, pause: true, nofile: None, pruned: false });
         // the same with --verify (from a height above the first indexed one, so that any block 0 will do): the checks
         // of every later block still need the index records of the blocks before it
-        slow.push(Case { chain: chain.clone(), start: Some(1 + k as u64), end: None, cb: *cb, layout: None, verify: true, pause: true, nofile: None });
-        slow.push(Case { chain, start: Some(300), end: Some(5700), cb: *cb, layout: None, verify: false, pause: true, nofile: None });
+        slow.push(Case { chain: chain.clone(), start: Some(1 + k as u64), end: None, cb: *cb, layout: None, verify: true, pause: true, nofile: None, pruned: false });
+        slow.push(Case { chain, start: Some(300), end: Some(5700), cb: *cb, layout: None, verify: false, pause: true, nofile: None, pruned: false });
     }
     eng.enumerate("progress-line-due", slow, check);
     // a chain spread over more blk files than the descriptor limit allows to hold open (real chains have thousands
@@ -243,9 +264,9 @@ fn run(eng: &Engine, a: &Args) {
         xor_link: 0,
     };
     let many = vec![
-        Case { chain: chain.clone(), start: None, end: None, cb: Callback::CsvDump, layout: Some(layout.clone()), verify: false, pause: false, nofile: Some(256) },
-        Case { chain: chain.clone(), start: Some(40), end: Some(1290), cb: Callback::UnspentCsvDump, layout: Some(layout.clone()), verify: false, pause: false, nofile: Some(256) },
-        Case { chain, start: None, end: Some(1000), cb: Callback::SimpleStats, layout: Some(layout), verify: false, pause: false, nofile: Some(256) },
+        Case { chain: chain.clone(), start: None, end: None, cb: Callback::CsvDump, layout: Some(layout.clone()), verify: false, pause: false, nofile: Some(256), pruned: false },
+        Case { chain: chain.clone(), start: Some(40), end: Some(1290), cb: Callback::UnspentCsvDump, layout: Some(layout.clone()), verify: false, pause: false, nofile: Some(256), pruned: false },
+        Case { chain, start: None, end: Some(1000), cb: Callback::SimpleStats, layout: Some(layout), verify: false, pause: false, nofile: Some(256), pruned: false },
     ];
     eng.enumerate("thousand-blk-files", many, check);
     // a chain of more than 2^16 blocks: heights, block / row counters and per-height bookkeeping beyond 16 bits
@@ -256,10 +277,10 @@ fn run(eng: &Engine, a: &Args) {
     let chain = vpmodel::spec::chain_from_scripts(Coin::Bitcoin, &scripts, &[1000, 2500, 7], 1, 1, 0, 1_300_000_000);
     let mut long = Vec::new();
     for cb in ALL_CALLBACKS {
-        long.push(Case { chain: chain.clone(), start: None, end: None, cb, layout: None, verify: false, pause: false, nofile: None });
+        long.push(Case { chain: chain.clone(), start: None, end: None, cb, layout: None, verify: false, pause: false, nofile: None, pruned: false });
     }
     for (s, e, cb) in [(Some(65_530u64), Some(65_541u64), Callback::CsvDump), (Some(65_536), None, Callback::UnspentCsvDump), (None, Some(65_536), Callback::Balances), (Some(65_535), Some(65_536), Callback::OpReturn), (Some(1), Some(65_535), Callback::SimpleStats)] {
-        long.push(Case { chain: chain.clone(), start: s, end: e, cb, layout: None, verify: false, pause: false, nofile: None });
+        long.push(Case { chain: chain.clone(), start: s, end: e, cb, layout: None, verify: false, pause: false, nofile: None, pruned: false });
     }
     eng.enumerate("chain-longer-than-2^16", long, check);
 }
